@@ -200,8 +200,8 @@ pub fn c05(o: &Opts) -> i32 {
     for (i, (p, _)) in corpus.iter().enumerate() { if i < 12 || i % (if q { 6 } else { 2 }) == 0 { units.push(U::Walk(p.clone(), if i < 12 { 3 } else { 2 }, i % 2 == 1)); } }
     // transposition-rich K+N endings
     units.push(U::Walk(Pos::from_fen("8/8/4k3/3Nn3/3nN3/4K3/8/8 w - - 0 1").unwrap(), 3, true));
-    for g in 0..if q { 24 } else { 96 } { units.push(U::Game(o.seed.wrapping_mul(7919).wrapping_add(g))); }
-    for s in 0..16 { units.push(U::Setups(o.seed.wrapping_mul(104729).wrapping_add(s), if q { 1500 } else { 6000 })); }
+    for g in 0..if q { 200 } else { 600 } { units.push(U::Game(o.seed.wrapping_mul(7919).wrapping_add(g))); }
+    for s in 0..16 { units.push(U::Setups(o.seed.wrapping_mul(104729).wrapping_add(s), if q { 10000 } else { 40000 })); }
     par::for_each(&units, par::threads(), |i, u| match u {
         U::Walk(p, d, detours) => c05_walk(&sh, p, *d, o.seed ^ (i as u64) << 8, *detours),
         U::Game(s) => c05_game(&sh, *s),
